@@ -247,7 +247,7 @@
         assert!(e.parse_count_u16(Variation::Group50Var1).is_err());
     }
 
-    // @harness ids=C09,C01 tier=thorough kind=proof units=app::parse::parser::ObjectParser::parse_start_stop_u8 timeout=300 note="qualifier 0x00, variation fixed to g1v2 (1-octet objects), any function code incl. READ, every start/stop: read from exactly 2 octets; stop < start is rejected as InvalidRange(start, stop) for READ too; otherwise the header reports start and stop unchanged, a READ consumes nothing more, any other function consumes exactly stop-start+1 object octets (error if absent) and the sequence starts at index start; field cut short: error"
+    // @harness ids=C09,C01 tier=quick kind=proof units=app::parse::parser::ObjectParser::parse_start_stop_u8 timeout=300 note="qualifier 0x00, variation fixed to g1v2 (1-octet objects), any function code incl. READ, every start/stop: read from exactly 2 octets; stop < start is rejected as InvalidRange(start, stop) for READ too; otherwise the header reports start and stop unchanged, a READ consumes nothing more, any other function consumes exactly stop-start+1 object octets (error if absent) and the sequence starts at index start; field cut short: error"
     #[kani::proof]
     #[kani::unwind(6)]
     fn vk_c09_objparser_start_stop_u8() {
@@ -299,7 +299,7 @@
         assert!(e.parse_start_stop_u8(Variation::Group1Var2).is_err());
     }
 
-    // @harness ids=C09,C01 tier=thorough kind=proof units=app::parse::parser::ObjectParser::parse_start_stop_u16 timeout=300 note="qualifier 0x01, variation fixed to g1v2, any function code incl. READ, every start/stop: read from exactly 4 octets, little endian each; stop < start rejected as InvalidRange for READ too; otherwise start/stop reported unchanged, READ consumes nothing more, other functions exactly stop-start+1 octets (error if absent), first index = start; field cut short: error"
+    // @harness ids=C09,C01 tier=quick kind=proof units=app::parse::parser::ObjectParser::parse_start_stop_u16 timeout=300 note="qualifier 0x01, variation fixed to g1v2, any function code incl. READ, every start/stop: read from exactly 4 octets, little endian each; stop < start rejected as InvalidRange for READ too; otherwise start/stop reported unchanged, READ consumes nothing more, other functions exactly stop-start+1 octets (error if absent), first index = start; field cut short: error"
     #[kani::proof]
     #[kani::unwind(6)]
     fn vk_c09_objparser_start_stop_u16() {
@@ -687,7 +687,7 @@
         (v, q)
     }
 
-    // @harness ids=C09,C01 tier=thorough kind=proof units=app::format::write::HeaderWriter::write_all_objects_header,app::format::write::HeaderWriter::write_range_only,app::parse::parser::ObjectParser::parse_all_objects,app::parse::parser::ObjectParser::parse_start_stop_u8 timeout=300 note="READ request as the master builds it: class poll header (g60v2, all objects) and a g1v2 8-bit range (every start <= stop): the outstation-side header parser returns the same variation, qualifier and start/stop and consumes every octet"
+    // @harness ids=C09,C01 tier=quick kind=proof units=app::format::write::HeaderWriter::write_all_objects_header,app::format::write::HeaderWriter::write_range_only,app::parse::parser::ObjectParser::parse_all_objects,app::parse::parser::ObjectParser::parse_start_stop_u8 timeout=300 note="READ request as the master builds it: class poll header (g60v2, all objects) and a g1v2 8-bit range (every start <= stop): the outstation-side header parser returns the same variation, qualifier and start/stop and consumes every octet"
     #[kani::proof]
     fn vk_c09_roundtrip_read_all_objects_and_range8() {
         {
@@ -723,7 +723,7 @@
         }
     }
 
-    // @harness ids=C09,C01 tier=thorough kind=proof units=app::format::write::HeaderWriter::write_range_only,app::parse::parser::ObjectParser::parse_start_stop_u16 timeout=300 note="READ request: g30v1 16-bit range, every start <= stop: the header parser returns the same variation, qualifier 0x01 and start/stop, every octet consumed"
+    // @harness ids=C09,C01 tier=quick kind=proof units=app::format::write::HeaderWriter::write_range_only,app::parse::parser::ObjectParser::parse_start_stop_u16 timeout=300 note="READ request: g30v1 16-bit range, every start <= stop: the header parser returns the same variation, qualifier 0x01 and start/stop, every octet consumed"
     #[kani::proof]
     fn vk_c09_roundtrip_read_range16() {
         let (start, stop): (u16, u16) = (kani::any(), kani::any());
@@ -855,7 +855,7 @@
         kani::cover!(true);
     }
 
-    // @harness ids=C09,C01 tier=thorough kind=proof units=app::format::write::HeaderWriter::write_clear_restart,app::parse::parser::ObjectParser::parse_start_stop_u8 timeout=300 note="WRITE request clear-restart (g80v1 7..7 = 0): the outstation-side header parser returns g80v1, qualifier 0x00, range 7..7, and iterating yields one bit (index 7, false); every octet consumed"
+    // @harness ids=C09,C01 tier=quick kind=proof units=app::format::write::HeaderWriter::write_clear_restart,app::parse::parser::ObjectParser::parse_start_stop_u8 timeout=300 note="WRITE request clear-restart (g80v1 7..7 = 0): the outstation-side header parser returns g80v1, qualifier 0x00, range 7..7, and iterating yields one bit (index 7, false); every octet consumed"
     #[kani::proof]
     #[kani::unwind(4)]
     fn vk_c09_roundtrip_clear_restart() {
